@@ -34,6 +34,12 @@ class RemoveLiteralStatements(SuiteTransformer):
         return self.visit(node)
 
     def visit_Module(self, node):
+        # Names have not been bound when this transform runs, so look for uses of the __doc__ name directly
+        for n in ast.walk(node):
+            if isinstance(n, ast.Name) and n.id == '__doc__':
+                node.body = [self.visit(a) for a in node.body]
+                return node
+
         for binding in node.bindings:
             if binding.name == '__doc__':
                 node.body = [self.visit(a) for a in node.body]
